@@ -114,15 +114,15 @@ class BaseScheduler:
         producer to produce component inputs.
         """
         self.ticker = Ticker(self._wiring, self.update_component, self.skip_component)
+        self.state_producer: StateProducer[
+            Union[ComponentInput, Skip]
+        ] = self._state_producer_cls()
         self.state_consumer: StateConsumer[ComponentOutput] = self._state_consumer_cls(
             self.handle_message
         )
         await self.state_consumer.subscribe(
             {output_topic(component) for component in self.ticker.components}
         )
-        self.state_producer: StateProducer[
-            Union[ComponentInput, Skip]
-        ] = self._state_producer_cls()
 
     def add_wakeup(self, component: ComponentID, when: SimTime) -> None:
         """Adds a wakeup to the mapping.
